@@ -24,7 +24,7 @@ RULE = ("histories = 1..20 CON/NON submissions on 1..3 datagram sessions (NSTART
         "transmitted inside its own coap_send) and at least one held message was transmitted later or "
         "NACKed; distinct = distinct case lines")
 
-WRAPS = ["coap_ticks", "coap_socket_send", "coap_socket_recv"]
+WRAPS = ["coap_ticks", "coap_socket_send", "coap_socket_recv", "coap_netif_dgrm_write"]
 
 
 def run_cases(exe, lines, chunk=250, t_chunk=15, t_one=2):
@@ -90,6 +90,9 @@ def canon(out, ops):
     for op, items in zip(ops, gs):
         sid = re.match(r"[A-Z](\d+)", op)
         sid = sid.group(1) if sid else "-"
+        if op == "E":
+            res.append("")
+            continue
         if op[0] == "F":
             keep, infl = [], set()
             for it in items:
@@ -101,13 +104,13 @@ def canon(out, ops):
                     keep.append(it)
             items = keep + sorted(infl)
         for it in items:
-            if it[0] == "T":
+            if it[0] in "TE" and it[1] in "cn":
                 seen[(sid, it[2:].split(".")[0])] = 1
         # inside one library call the order between datagrams and nack callbacks is not
         # observable by the property (e.g. give-up: next message first, then the NACK):
         # result marker, datagrams in order, callbacks in order
-        items = [x for x in items if x[0] in "AX"] + [x for x in items if x[0] in "TW"] + \
-                [x for x in items if x[0] not in "AXTW"]
+        items = [x for x in items if x[0] in "AX"] + [x for x in items if x[0] in "TWE"] + \
+                [x for x in items if x[0] not in "AXTWE"]
         res.append(",".join(items))
     return " ".join("%d:%s" % (i, x) for i, x in enumerate(res))
 
@@ -118,8 +121,12 @@ def mon_line(prefix, ops, out):
     if gs is None or len(gs) != len(ops):
         return None
     nsess = int(prefix[2])
-    toks = ["nsmon", prefix[2]] + list(prefix[3:3 + nsess])
+    # histories with failing socket writes are judged by the bound-only checker
+    toks = ["nsbound" if "E" in ops else "nsmon", prefix[2]] + list(prefix[3:3 + nsess])
     for op, items in zip(ops, gs):
+        if op == "E":
+            toks += ["E", "-"]
+            continue
         if op[0] == "W":
             # natural time: one pseudo timer event per session that showed activity
             per = {}
@@ -199,12 +206,13 @@ def main(run):
     r = tie.rng_for(run, "c08")
     n_forced = 8000 if quick else 120000
     n_natural = 1500 if quick else 25000
+    n_errs = 1500 if quick else 25000
     cases = []           # (prefix, ops, meta)
     corpus = vlib.read_corpus("C08")
     if getattr(run, "replay", None):
         # --replay <file>: only the case(s) written in a replay file ("case: ns ..." lines)
         corpus = [l[6:].strip() for l in open(run.replay) if l.startswith("case: ns ")]
-        n_forced = n_natural = 0
+        n_forced = n_natural = n_errs = 0
     for ln in corpus:
         t = ln.split()
         ns = int(t[2])
@@ -215,6 +223,8 @@ def main(run):
         cases.append(gen_nstart.gen_case(r, big=(i % 7 == 0)))
     for i in range(n_natural):
         cases.append(gen_nstart.gen_case(r, natural=True))
+    for i in range(n_errs):
+        cases.append(gen_nstart.gen_case(r, errs=True))
     lines = [gen_nstart.line_of(p, o) for p, o, _ in cases]
 
     forced_idx = [i for i, c in enumerate(cases) if not c[2].get("natural")]
@@ -259,7 +269,8 @@ def main(run):
         nat = bool(meta.get("natural"))
         run.count(ln, nontrivial(ops, co))
         run.hist("sessions", meta.get("nsess"))
-        run.hist("mode", "corpus" if meta.get("corpus") else ("natural-time" if nat else "forced-timer"))
+        run.hist("mode", "corpus" if meta.get("corpus") else
+                 ("natural-time" if nat else ("write-failures" if meta.get("errs") else "forced-timer")))
         run.hist("ops", min(len(ops) // 10 * 10, 100))
         run.hist("peer_in_scope", peer_ok(ops, co))
         for o in ops:
